@@ -57,12 +57,12 @@ Fixpoint pget (tn : node) (key : list N) {struct tn} : option (list N * node) :=
   | NValue _ => Some ([], tn)                                  (* return nil, n *)
   end.
 
-(* decodeNode as called by VerifyProof.  Hash.decode_node_f takes the nesting
-   depth of embedded nodes as fuel; an embedded node is shorter than 32 bytes
-   and every nesting level costs at least one byte, so 34 is never exhausted
-   (ProofProofs.proof_decode_no_fuel) — Hash.decode_node's 8 is enough for
-   canonical nodes only, not for adversarial chains of empty-key extensions. *)
-Definition proof_decode (buf : list N) : dres node := decode_node_f 34 buf.
+(* decodeNode as called by VerifyProof: Hash.decode_node.  Its fuel is the
+   nesting depth of embedded nodes (34); an embedded node is shorter than 32
+   bytes and every nesting level costs at least one byte, so it is never
+   exhausted (ProofProofs.proof_decode_no_fuel), also on adversarial chains of
+   empty-key extensions. *)
+Definition proof_decode (buf : list N) : dres node := decode_node buf.
 
 Inductive verr : Type :=
 | VMissing (i : nat)            (* "proof node %d (hash …) missing" *)
